@@ -32,10 +32,10 @@ def jobs(tier):
     for posts,nh in ([(4,16),(4,64)] if q else [(4,16),(4,64),(5,16),(5,64)]):
         J.append(Job('f1-curve-%d-n%d'%(posts,nh),'C01/f1_render.c',defs=['-DWHICH=1','-DPOSTS=%d'%posts,'-DNHALF=%d'%nh],cuts={'floor1.c':['render_line']},unwind=66,object_bits=10,witnesses=['two or more lines','a post skipped','unused']+(['tail filled'] if nh>32 else []),
             functions=['floor1_inverse2','floor1_look'],models=['M-libc qsort (insertion sort)','render_line cut: records its calls (its own job: f1-line)'],bounds='%d posts at distinct symbolic positions < 32, block half size %d, symbolic amplitudes/flags, mult 1..4'%(posts,nh),weight=2))
-    for ty in (0,1,2):
-        J.append(Job('K-res-type%d'%ty,'C01/k_res.c',defs=['-DTYPE=%d'%ty],unwind=5,unwindset=[('ov_ilog',None,34),('harness',r'i<6',7),('harness',r'i<pv',6),('_01inverse',r'i<partvals',6),('res2_inverse',r'i<partvals',6)],object_bits=10,
-            witnesses=['two passes over three or more partitions','ended by end of packet','nothing to decode'],models=['classification word / partition decoders cut: recorded calls (K-bookvec decides the decoders)','_vorbis_block_alloc = malloc'],
-            functions=['res0_look','res%d_inverse'%ty,'_01inverse' if ty<2 else 'res2_inverse','res0_free_look'],bounds='2 classifications, 2 words per class codeword, partition size 2, 2 channels of 8 samples, cascades < 8 (<=3 passes), begin/end 0..24',weight=3))
+    for ty,c0,c1 in ([(0,1,3),(1,3,2),(2,1,3)] if q else [(0,1,3),(1,3,2),(2,1,3),(0,3,0),(1,2,1),(2,3,3),(1,0,0)]):
+        J.append(Job('K-res-type%d-c%d%d'%(ty,c0,c1),'C01/k_res.c',defs=['-DTYPE=%d'%ty,'-DCAS0=%d'%c0,'-DCAS1=%d'%c1],unwind=5,unwindset=[('ov_ilog',None,34),('harness',r'i<pv',6),('_01inverse',r'i<partvals',6),('res2_inverse',r'i<partvals',6)],object_bits=10,
+            witnesses=(['nothing to decode'] if c0+c1==0 else ['ended by end of packet','nothing to decode']+(['two passes over three or more partitions'] if max(c0,c1)>=2 else [])),models=['classification word / partition decoders cut: recorded calls (K-bookvec decides the decoders)','_vorbis_block_alloc = malloc'],
+            functions=['res0_look','res%d_inverse'%ty,'_01inverse' if ty<2 else 'res2_inverse','res0_free_look'],bounds='2 classifications with cascades (%d,%d), 2 words per class codeword, partition size 2, %s, begin/end 0..10'%(c0,c1,'2 channels of 4 samples' if ty==2 else '1 channel of 6 samples'),weight=3))
     J+=other('C02',tier,lambda j:j.name.startswith('K-synth') or j.name=='P-quantvals' or j.name.startswith('K-floor0'))
     J+=blk(tier,lambda j:j.name.startswith('blockin-step'))[:2 if q else 99]
     return J
